@@ -79,8 +79,7 @@ func loadKeys() {
 					e.PrivateKey.Decrypt([]byte("passphrase"))
 				}
 				for _, s := range e.Subkeys {
-					// an ECDH (algo 18) secret key makes PrivateKey.Decrypt panic("impossible") — C45 finding; not needed here
-					if s.PrivateKey != nil && s.PrivateKey.Encrypted && s.PublicKey.PubKeyAlgo != packet.PubKeyAlgoECDH {
+					if s.PrivateKey != nil && s.PrivateKey.Encrypted {
 						s.PrivateKey.Decrypt([]byte("passphrase"))
 					}
 				}
